@@ -12,6 +12,7 @@ import (
 	"fmt"
 	"sort"
 	"sync"
+	"time"
 
 	"verif/simkit/sim"
 )
@@ -27,12 +28,25 @@ type (
 type Mutex struct {
 	g       sync.Mutex
 	locked  bool
-	waiters []chan struct{}
+	waiters []*mwaiter
 }
+
+type mwaiter struct {
+	ch      chan struct{}
+	since   time.Time
+	granted bool
+}
+
+// starvation is the waiting time after which Unlock hands the mutex directly
+// to the longest waiter, like sync.Mutex's starvation mode (1 ms): without it a
+// goroutine that re-locks in a loop could keep a waiter out for ever under
+// schedules that always prefer it.
+const starvation = time.Millisecond
 
 // Lock acquires the mutex; the attempt is a gate.
 func (m *Mutex) Lock() {
 	sim.Yield(sim.GateMutex, "mutex.Lock")
+	var since time.Time
 	for {
 		m.g.Lock()
 		if !m.locked {
@@ -40,10 +54,16 @@ func (m *Mutex) Lock() {
 			m.g.Unlock()
 			return
 		}
-		ch := make(chan struct{})
-		m.waiters = append(m.waiters, ch)
+		if since.IsZero() {
+			since = time.Now()
+		}
+		w := &mwaiter{ch: make(chan struct{}), since: since}
+		m.waiters = append(m.waiters, w)
 		m.g.Unlock()
-		<-ch
+		<-w.ch
+		if w.granted {
+			return
+		}
 		sim.Yield(sim.GateMutex, "mutex.wake")
 	}
 }
@@ -61,19 +81,27 @@ func (m *Mutex) TryLock() bool {
 }
 
 // Unlock releases the mutex and wakes all waiters (the scheduler decides who
-// wins).
+// wins), unless the longest waiter is starving: then it gets the mutex.
 func (m *Mutex) Unlock() {
 	m.g.Lock()
 	if !m.locked {
 		m.g.Unlock()
 		panic("sync: unlock of unlocked mutex")
 	}
+	if len(m.waiters) > 0 && time.Since(m.waiters[0].since) >= starvation {
+		w := m.waiters[0]
+		m.waiters = m.waiters[1:]
+		w.granted = true // ownership passes on, m.locked stays true
+		m.g.Unlock()
+		close(w.ch)
+		return
+	}
 	m.locked = false
 	ws := m.waiters
 	m.waiters = nil
 	m.g.Unlock()
-	for _, ch := range ws {
-		close(ch)
+	for _, w := range ws {
+		close(w.ch)
 	}
 }
 
